@@ -16,7 +16,7 @@ func init() {
 		ID:    "C02",
 		Title: "First disruptive match interrupts; interruption is final; engine modes hold",
 		Explanation: "Decides the structural mechanism, not the behaviour: R1 every call of RuleGroup.Eval(P) is dominated by guards RuleEngine!=Off and, for P in 1..4, interruption==nil and lastPhase<=P-1 (==P-1 for body phases), with no possible writer of those fields between guard and call (dominator facts + interval domain + may-write sets over the VTA call graph); " +
-			"R2 the interruption fields are stored only by Transaction.Interrupt (under exactly the matching engine mode and no other condition, first-wins for DetectionOnly) and reset in newTransaction (who-may-write over the whole module); R2 also: state parsed from rule text at run time (ctl:ruleEngine and the other ctl settings) is stored only from a successfully parsed value (store dominated by err == nil, or the error branch leaves the function); R3 in Eval every path to Rule.Evaluate passes the interruption test of the current iteration; " +
+			"R2 the interruption fields are stored only by Transaction.Interrupt (under exactly the matching engine mode and no other condition, first-wins in both modes: a recorded interruption is never replaced) and reset in newTransaction (who-may-write over the whole module); R2 also: state parsed from rule text at run time (ctl:ruleEngine and the other ctl settings) is stored only from a successfully parsed value (store dominated by err == nil, or the error branch leaves the function); R3 in Eval every path to Rule.Evaluate passes the interruption test of the current iteration; " +
 			"R4 lastPhase is written only by Eval(=phase) and newTransaction(=0); R5 each disruptive action builds its Interruption from r.ID()/ParentID() fallback, r.Status() with its documented default/whitelist, and an Action string equal to its registered name; " +
 			"R8 every return of the four Process* phase calls yields tx.interruption, or nil only under a still-valid interruption==nil / engine-Off guard; R6 coraza.NewWAF forces ProcessPartial for both body limit actions on every DetectionOnly path before Validate; R7 the action parser replaces rather than appends a second disruptive action.",
 		NotDecided: []string{
@@ -102,10 +102,20 @@ func runC02(c *an.Ctx) {
 			if !txEngine(f, "==", on) {
 				return false, "the store of tx.interruption is not dominated by RuleEngine == On: DetectionOnly/Off transactions could be interrupted"
 			}
-			if fg := foreignGuards(f, ".RuleEngine"); len(fg) > 0 {
+			if !f.HasSuffix(".interruption", "==", "nil") || hasFactLike(f, ".detectionOnlyInterruption") && !f.HasSuffix(".interruption", "==", "nil") {
+				return false, "the store of tx.interruption is not dominated by interruption == nil: a later disruptive match (a logging-phase rule, a body limit reached after a deny) replaces the interruption that every later phase call must keep reporting"
+			}
+			var fg []string
+			for _, g := range foreignGuards(f, ".RuleEngine") {
+				if strings.Contains(g, ".interruption") && !strings.Contains(g, "detectionOnly") {
+					continue // the first-wins test itself
+				}
+				fg = append(fg, g)
+			}
+			if len(fg) > 0 {
 				return false, "with the engine On the interruption is additionally conditioned on " + strings.Join(fg, ", ") + ": in those states a disruptive match does not interrupt (e.g. after a would-be interruption recorded in DetectionOnly and a ctl:ruleEngine=On)"
 			}
-			return true, "guard RuleEngine == On, and nothing else, dominates the store"
+			return true, "guards RuleEngine == On and interruption == nil (first wins), and nothing else, dominate the store"
 		}},
 		{fn: "internal/corazawaf.(*WAF).newTransaction", why: "reset", check: storesConst("nil")},
 	})
